@@ -24,6 +24,11 @@
    after every failure — and it re-issues child 0 after a fault followed by a partially failing
    reload (FaultReloadProofs.new_address_mirror_refuted).
 
+   [mem_undo] is a second switch: false = the code as it is (a failed NewAddress drops the cached
+   keystore and reloads it from the store: the reload can fail, partially or altogether); true = the
+   repair proposed with this model (fix-c18f: the addresses NextAddresses had added are taken out
+   of the table again, no database access, cannot fail).
+
    One wallet (keystore buckets of different wallets are disjoint); [derive i] is address number i
    of its external branch (BIP-32 child i, hashed: C04/C14), arbitrary here. *)
 From Coq Require Import List Arith Bool NArith.
@@ -67,7 +72,7 @@ Definition load (l : reload) (s : kst) : option cached :=
    repairing reload, which ends in one of the three ways *)
 Inductive nfault := NNone | NFail (l : reload).
 
-Definition new_address (from_store : bool) (f : nfault) (s : kst) : kst * option N :=
+Definition new_address (from_store mem_undo : bool) (f : nfault) (s : kst) : kst * option N :=
   match s_cache s with
   | None => (s, None)                       (* "no wallet in use" / "account not found" *)
   | Some c =>
@@ -80,7 +85,9 @@ Definition new_address (from_store : bool) (f : nfault) (s : kst) : kst * option
               s_cache := Some {| c_addrs := a :: c_addrs c;
                                  c_mirror := S i |} |},            (* updateManagedAddress: fetchChildNum in the transaction *)
            Some a)
-      | NFail l => ({| s_next := s_next s; s_rows := s_rows s; s_cache := load l s |}, None)
+      | NFail l =>
+          if mem_undo then (s, None)
+          else ({| s_next := s_next s; s_rows := s_rows s; s_cache := load l s |}, None)
       end
   end.
 
@@ -88,19 +95,19 @@ Definition new_address (from_store : bool) (f : nfault) (s : kst) : kst * option
    store that are not part of a NewAddress (restart, ImportWallet of a keystore with addresses) *)
 Inductive event := ENew (f : nfault) | ELoad (l : reload).
 
-Definition step (from_store : bool) (e : event) (s : kst) : kst * option N :=
+Definition step (from_store mem_undo : bool) (e : event) (s : kst) : kst * option N :=
   match e with
-  | ENew f => new_address from_store f s
+  | ENew f => new_address from_store mem_undo f s
   | ELoad l => ({| s_next := s_next s; s_rows := s_rows s; s_cache := load l s |}, None)
   end.
 
 (* a history of events; the addresses handed out, in order *)
-Fixpoint run (from_store : bool) (evs : list event) (s : kst) : kst * list N :=
+Fixpoint run (from_store mem_undo : bool) (evs : list event) (s : kst) : kst * list N :=
   match evs with
   | [] => (s, [])
   | e :: r =>
-      let '(s1, res) := step from_store e s in
-      let '(s2, l) := run from_store r s1 in
+      let '(s1, res) := step from_store mem_undo e s in
+      let '(s2, l) := run from_store mem_undo r s1 in
       (s2, match res with Some a => a :: l | None => l end)
   end.
 
@@ -119,6 +126,10 @@ Definition same_but_mirror (s1 s2 : kst) : Prop :=
 
 Definition no_load_fails (evs : list event) : Prop :=
   Forall (fun e => match e with ENew (NFail LoadFails) | ELoad LoadFails => False | _ => True end) evs.
+
+(* no load OUTSIDE a NewAddress (restart, import) loses the keystore *)
+Definition no_lost_load (evs : list event) : Prop :=
+  Forall (fun e => match e with ELoad LoadFails => False | _ => True end) evs.
 
 Definition clean_calls (evs : list event) : nat :=
   length (filter (fun e => match e with ENew NNone => true | _ => false end) evs).
